@@ -427,6 +427,13 @@ partial def loop (h : IO.FS.Stream) (s : St) : IO Unit := do
         printVios (s.sc ++ "~") s.line
           [⟨"C11", "exceptionEscaped", [], s!"bus {b} event {e}: {why} escaped process_event instead of being captured as a handler's error result"⟩]
       loop h s
+    | ["oAccessors", e, ch] =>
+      -- C08: reading a completed event through the documented accessors changed one of its results (compared by value)
+      if ch == "1" then
+        IO.println s!"OBS {s.sc} {s.line} event {e} results: a result status/value changed while the event was only read (reading is not a step of the model)"
+        printVios (s.sc ++ "~") s.line
+          [⟨"C08", "changedByAccessor", [], s!"event {e}: a result of the completed event changed while it was only read through its accessors"⟩]
+      loop h s
     | ["oAfterExpect", b, n] =>
       -- C18: when expect() has returned / raised / been cancelled, its temporary subscription is gone from the real bus
       let mdl := (s.w.bus b.toNat!).handlers.length
